@@ -44,15 +44,35 @@ pub fn scriptlet_resources() -> Vec<ResDef> {
     v
 }
 
+/// A line of this form inside a list starts a new source: the lines after it are added with a
+/// separate `add_filters` call under the given permission mask (to the parser it is a comment).
+pub const SOURCE_MARKER: &str = "!#verif-source perm=";
+
 pub fn build(lines: &[String], debug: bool, optimize: bool, perm: u8) -> Engine {
     let mut fs = FilterSet::new(debug);
-    fs.add_filters(
-        lines,
-        ParseOptions {
-            permissions: PermissionMask::from_bits(perm),
-            ..Default::default()
-        },
-    );
+    let mut cur = perm;
+    let mut chunk: Vec<String> = vec![];
+    let mut flush = |fs: &mut FilterSet, chunk: &mut Vec<String>, p: u8| {
+        if !chunk.is_empty() {
+            fs.add_filters(
+                chunk.as_slice(),
+                ParseOptions {
+                    permissions: PermissionMask::from_bits(p),
+                    ..Default::default()
+                },
+            );
+            chunk.clear();
+        }
+    };
+    for l in lines {
+        if let Some(p) = l.strip_prefix(SOURCE_MARKER) {
+            flush(&mut fs, &mut chunk, cur);
+            cur = p.trim().parse().unwrap_or(perm);
+        } else {
+            chunk.push(l.clone());
+        }
+    }
+    flush(&mut fs, &mut chunk, cur);
     let mut e = Engine::from_filter_set(fs, optimize);
     e.use_resources(scriptlet_resources().iter().map(|r| r.to_resource()));
     e
